@@ -52,7 +52,16 @@ pub fn cases(rng: &mut Rng, count: usize, tier: &str) -> Vec<Case> {
             o.min_terms = 5;
         }
         let mut tags = vec![];
-        if rng.chance(1, 16) {
+        if out.len() < 2 {
+            // one very long chain (deeper than any plausible recursion guard: 32, 64, 100, 128, 256), supplied
+            // descendants-first or ancestors-first
+            o.deep = true;
+            o.dense = false;
+            o.min_terms = 260;
+            o.max_terms = if tier == "thorough" { 520 } else { 300 };
+            o.max_records = 1;
+            tags.push("very_deep_chain");
+        } else if rng.chance(1, 16) {
             // one long chain (33-70 terms), supplied in random order
             o.deep = true;
             o.dense = false;
@@ -61,7 +70,15 @@ pub fn cases(rng: &mut Rng, count: usize, tier: &str) -> Vec<Case> {
             o.max_records = 1;
             tags.push("deep_chain");
         }
-        let (mut w, f) = world::gen_world_sub_p(rng, o, &mut tags, if o.dense { 2 } else { 4 });
+        let very_deep_builder = out.is_empty();
+        let (mut w, f) = if very_deep_builder {
+            // the first case: a Builder script, leaf first (the cache recursion climbs the whole chain from the first term)
+            let f = gen::gen_facts(rng, o);
+            tags.push("builder");
+            (World::Builder(build::script_from_facts(rng, &f, 0)), f)
+        } else {
+            world::gen_world_sub_p(rng, o, &mut tags, if o.dense { 2 } else { 4 })
+        };
         if o.deep {
             // supply the terms descendants-first (or ancestors-first): the cache recursion climbs the whole chain
             let inner = match &mut w {
@@ -71,7 +88,7 @@ pub fn cases(rng: &mut Rng, count: usize, tier: &str) -> Vec<Case> {
             if let World::Builder(s) = inner {
                 let depth_of: std::collections::BTreeMap<u32, usize> = f.terms.iter().map(|t| (t.id, f.ancestors(t.id).len())).collect();
                 s.terms.sort_by_key(|t| depth_of.get(&t.0).copied().unwrap_or(0));
-                if rng.chance(2, 3) {
+                if very_deep_builder || rng.chance(2, 3) {
                     s.terms.reverse();
                 }
             }
